@@ -41,6 +41,9 @@ C['C06']=dict(level='model_checking',
 C['C08']=dict(level='model_checking',
   text='%s. Every alphabet message is delivered in every reachable state (both roles, trusted and pending); in addition 4490 systematic malformed inputs (every single structured mutation of each valid SHIP message: node deleted / replaced by 14 values incl. "[ ]", header byte variants, truncations, stray zero bytes, whitespace at token boundaries; all byte strings of length <= 3 over a 14-symbol alphabet) are delivered in one representative of every distinct (handshake state, transport state). Oracle: no panic in any goroutine, the receive loop returns (only a bounded close delay may be pending), post-state legal.' % G,
   note=GNOTE+' Ship level only so far (websocket frame level and mDNS inputs are separate harnesses).', technique='explicit-state model checking of the implementation (BFS by replay) plus exhaustive enumeration of a finite mutation set in every distinct state', design_ref='4/C08')
+C['C03']=dict(level='model_checking',
+  text='Explicit-state breadth-first search to fixpoint over two real ShipConnections (client and server role) joined by FIFO queues in which a transport close travels behind the frames written before it. 34 configurations quick / 128 thorough: server trust {paired, auto-accept, user approves at any moment, user cancels while pending, never answers} x waiting allowed on either side x SHIP ID known on {neither, both, client, server} x timer mode {timely: timers only when no delivery is possible; arbitrary: any armed timer at any point, at most 3 frames per direction delayed}. Safety on every transition (setup at most once per endpoint, learned SHIP ID is the peer's, no completion without/after-cancel of trust); liveness on the kept state graph: Tarjan SCC, every bottom component must be resolved (both complete on an open transport, or both ended), success is mandatory in timely mode when trust was given beforehand or while pending; only the prolongation cycle of a user who has not answered is excused.',
+  note=GNOTE+' Intra-endpoint interleavings of concurrent stimuli are explored by the C14 schedule exploration and (hub level) the two-hub harnesses.', technique='explicit-state model checking of the implementation (two endpoints, BFS by replay) + SCC analysis of the state graph', design_ref='4/C03')
 na={}
 checks=[]
 for i in ids:
